@@ -33,6 +33,16 @@ def gen_cases(rng, n, max_depth):
                 kind = rng.choice(["sum", "sum", "prod"])
                 inner = ["b", kind, "j", E.op("add", E.op("mul", E.num(2), E.sym("j")), E.sym("i")), E.num(0), E.sym("i")]
                 lf["resources"].append({"name": "zs", "type": "other", "value": ["b", kind, "i", inner, E.num(1), top]})
+            if rng.random() < 0.25:
+                # error rates and huge constants: float coefficients that print in EXPONENT notation (1e-10*n, 3e-20*n**2, 1e+20*n),
+                # next to a symbol (written out by the expression printer, not as a native number) -- read back digit for digit
+                nd = rng.choice([n for n, _ in H._nodes(r)])
+                if not nd["input_params"]:
+                    nd["input_params"] = ["N"]
+                sy = E.sym(rng.choice(nd["input_params"]))
+                num, den = rng.choice([(1, 10 ** 10), (3, 10 ** 20), (15, 10 ** 11), (25, 10 ** 8), (10 ** 20, 1), (1, 10 ** 30)])
+                nd["resources"].append({"name": "zerr", "type": "other",
+                                        "value": E.op("add", E.op("mul", ["n", num, den, "float"], sy), E.op("mul", ["n", 3, 10 ** 20, "float"], E.op("pow", sy, E.num(2))))})
             if rng.random() < 0.2:
                 # a built-in of two arguments whose order matters, over two names of some routine's scope (or a name and a number)
                 nd = rng.choice([n for n, _ in H._nodes(r)])
